@@ -424,6 +424,9 @@ def nnsp_parts(it, ref, test, k):
     v1 = ctx.uf("nnsp_v1", *(sig + [z3.ArraySort(INT, REAL)]))(*args)
     v2 = ctx.uf("nnsp_v2", *(sig + [z3.ArraySort(INT, REAL)]))(*args)
     ctx.fact(L >= 1, key=("nnsp-len", L.sexpr()))
+    st = it.run.__dict__.setdefault("size_terms", [])
+    if not any(L.eq(x) for x in st):
+        st.append(L)
     return SOpaque("Mat", M), v1, v2, L
 
 
